@@ -60,7 +60,7 @@ def cases():
             'tc': st.sampled_from(['equal', 'touch_after', 'separated', 'overlap']),
             'l1': st.integers(0, 4), 'dl': st.integers(-3, 3), 'pos': st.integers(0, 10**6), 'pos2': st.integers(0, 10**6),
             'g': st.integers(1, 3), 'lw': st.integers(0, 2), 'swap': st.booleans(),
-            'm1': st.integers(0, 5), 'dm': st.integers(-2, 3), 'tpos': st.integers(0, 10**6), 'tpos2': st.integers(0, 10**6),
+            'm1': st.integers(0, 10), 'dm': st.integers(-2, 3), 'tpos': st.integers(0, 10**6), 'tpos2': st.integers(0, 10**6),
             'tgap': st.integers(1, 6), 'sym': st.sampled_from(syms), 'k': st.integers(1, 7), 'shift_level': st.integers(0, 3),
             'exact': st.booleans(),
         })
@@ -120,7 +120,7 @@ def body(case, rec):
     rec.case()
     from vlib.meshdrive import exc_site
     try:
-        probe, A, B, reason = pairs.targets_for(case)
+        probe, A, B, reason = pairs.targets_for(case, max_aspect=4096.0)
         if reason:
             rec.exclude(reason)
             return
@@ -147,10 +147,6 @@ def body(case, rec):
     sc2, tc2, near2, info2 = pairs.classify(g, tt2, tx2, st2, sx2)
     # no accuracy bound is needed here: the comparison is between two evaluations that must use the same rule in the
     # same relative position, whatever its accuracy (the unchanged tree agrees to 1e-13 also for extreme size ratios)
-    if case['sym'] in ('rot', 'reflect'):
-        if not all(pairs.aspect_ok(e) for e in (t2, s2)):
-            rec.exclude('aspect_above_32')
-            return
     exact = case['exact'] and not g.circle
     cj = dict(case)
     cj['_pair'] = {'test': [tt, tx], 'trial': [st_, sx], 'image_test': [tt2, tx2], 'image_trial': [st2, sx2]}
